@@ -38,8 +38,8 @@ func (x *Exec) newTensorObj(fr *Frame, hint string, d dimsOf, dtype, cont string
 	buf := x.newRef(st, hint+"_buf")
 	h := x.comp(st, "E$int$0", elemSort(SInt))
 	rank := x.define(hint+"_rank", SInt, d.rank)
-	x.emit(sx("assert", fmt.Sprintf("(forall ((i Int)) (! (=> (and (<= 0 i) (< i %s)) (= (select (select %s %s) i) %s)) :pattern ((select (select %s %s) i))))",
-		rank, h, shp, d.dim("i"), h, shp)))
+	x.assume(fr.curPC, fmt.Sprintf("(forall ((i Int)) (! (=> (and (<= 0 i) (< i %s)) (= (select (select %s %s) i) %s)) :pattern ((select (select %s %s) i))))",
+		rank, h, shp, d.dim("i"), h, shp))
 	x.ghostSet(st, "t$rank", t, rank)
 	x.ghostSet(st, "t$shp", t, shp)
 	x.ghostSet(st, "t$dtype", t, dtype)
@@ -278,8 +278,8 @@ func init() {
 		x.oblige(fr, "frame", "reshape-header", x.contractTags(fr), or(not(okT), x.permitted(fr, "G$t$rank", t)), fr.curPC,
 			"Reshape changes the header (shape) of a tensor the function may not modify", "")
 		shp := x.newRef(st, "reshaped_shape")
-		x.emit(sx("assert", fmt.Sprintf("(forall ((i Int)) (! (=> (and (<= 0 i) (< i %s)) (= (select (select %s %s) i) %s)) :pattern ((select (select %s %s) i))))",
-			d.rank, h, shp, d.dim("i"), h, shp)))
+		x.assume(fr.curPC, fmt.Sprintf("(forall ((i Int)) (! (=> (and (<= 0 i) (< i %s)) (= (select (select %s %s) i) %s)) :pattern ((select (select %s %s) i))))",
+			d.rank, h, shp, d.dim("i"), h, shp))
 		oldShp := x.tShp(st, t)
 		oldRank := x.tRank(st, t)
 		x.ghostSet(st, "t$rank", t, ite(okT, d.rank, oldRank))
@@ -305,8 +305,8 @@ func init() {
 		oldShp := x.tShp(st, t)
 		// default: reverse the axes; with explicit axes: permute (validity is the library's business)
 		ah := h
-		x.emit(sx("assert", fmt.Sprintf("(forall ((i Int)) (! (=> (and (<= 0 i) (< i %s)) (= (select (select %s %s) i) (ite (= %s 0) (select (select %s %s) (- (- %s 1) i)) (select (select %s %s) (select (select %s %s) (+ %s i)))))) :pattern ((select (select %s %s) i))))",
-			rank, h, shp, axes.slen(), h, oldShp, rank, h, oldShp, ah, axes.base(), axes.off(), h, shp)))
+		x.assume(fr.curPC, fmt.Sprintf("(forall ((i Int)) (! (=> (and (<= 0 i) (< i %s)) (= (select (select %s %s) i) (ite (= %s 0) (select (select %s %s) (- (- %s 1) i)) (select (select %s %s) (select (select %s %s) (+ %s i)))))) :pattern ((select (select %s %s) i))))",
+			rank, h, shp, axes.slen(), h, oldShp, rank, h, oldShp, ah, axes.base(), axes.off(), h, shp))
 		x.ghostSet(st, "t$shp", t, ite(okT, shp, oldShp))
 		x.ghostSet(st, "t$cont", t, ite(okT, sx(x.ufn("k_transpose", 2), x.tCont(st, t), axes.base()), x.tCont(st, t)))
 		return x.errOnly(fr, okT)
@@ -374,8 +374,8 @@ func init() {
 		s := args[0]
 		ref := x.newRef(st, "shapeclone")
 		h := x.comp(st, "E$int$0", elemSort(SInt))
-		x.emit(sx("assert", fmt.Sprintf("(forall ((i Int)) (! (=> (and (<= 0 i) (< i %s)) (= (select (select %s %s) i) (select (select %s %s) (+ %s i)))) :pattern ((select (select %s %s) i))))",
-			s.slen(), h, ref, h, s.base(), s.off(), h, ref)))
+		x.assume(fr.curPC, fmt.Sprintf("(forall ((i Int)) (! (=> (and (<= 0 i) (< i %s)) (= (select (select %s %s) i) (select (select %s %s) (+ %s i)))) :pattern ((select (select %s %s) i))))",
+			s.slen(), h, ref, h, s.base(), s.off(), h, ref))
 		return Val{T: i.Type(), C: []string{ite(eq(s.base(), "0"), "0", ref), "0", s.slen(), s.slen()}}
 	})
 	reg("(gorgonia.org/tensor.Shape).Eq", "true iff same length and equal extents", func(x *Exec, fr *Frame, i *ssa.Call, fn *ssa.Function, args []Val) Val {
